@@ -246,10 +246,16 @@ func (e *Env) StartServer(addr string, withServerDB bool, reuse *DBWrap) *Server
 	}
 	var srv *server.OvsdbServer
 	var err error
-	if reuse != nil {
-		srv, err = newServerOverExisting(w, dbms...)
-	} else {
-		srv, err = server.NewOvsdbServer(w, dbms...)
+	// creating a server over a database in use touches the database's locks: step the
+	// simulation while one of them is held by a parked goroutine
+	if !e.Do(func() {
+		if reuse != nil {
+			srv, err = newServerOverExisting(w, dbms...)
+		} else {
+			srv, err = server.NewOvsdbServer(w, dbms...)
+		}
+	}) {
+		return nil
 	}
 	if err != nil {
 		e.Fatalf("NewOvsdbServer: %v", err)
@@ -267,8 +273,14 @@ func (e *Env) StartServer(addr string, withServerDB bool, reuse *DBWrap) *Server
 			e.Logf("server %s: Serve returned %v", addr, err)
 		}
 	})
-	if !e.RunUntil(func() bool { return srv.Ready() }) {
-		e.Fatalf("server %s did not become ready", addr)
+	if !e.RunUntil(func() bool {
+		ready := false
+		e.Sim.Try(func() { ready = srv.Ready() })
+		return ready
+	}) {
+		if !e.Stopped() {
+			e.Fatalf("server %s did not become ready", addr)
+		}
 	}
 	return si
 }
@@ -507,6 +519,20 @@ func (e *Env) Abort(why string) {
 func (e *Env) RunSteps(n int) {
 	target := e.Sim.Stats.Steps + n
 	e.RunUntil(func() bool { return e.Sim.Stats.Steps >= target || e.Quiet() })
+}
+
+// Do runs f on the simulator goroutine, stepping the simulation while f would have
+// to wait for a lock held by a parked goroutine.
+func (e *Env) Do(f func()) bool {
+	done := false
+	return e.RunUntil(func() bool {
+		if done {
+			return true
+		}
+		ok, _ := e.Sim.Try(f)
+		done = ok
+		return ok
+	})
 }
 
 // Quiet reports whether nothing is runnable and nothing is in flight.
